@@ -23,6 +23,9 @@ type SessModel struct {
 	URL       string // originally requested URL
 	Seq       int64
 	Chain     int  // grant chain bound at login (-1 before)
+	Exchanged    bool // the provider answered 200 to a code exchange of this session
+	ExchangedSeq int64
+	ClearFailed  bool
 	Done      bool // a callback with this session's state has completed an exchange
 	DoneSeq   int64
 	Code      string
@@ -210,6 +213,17 @@ func (w *World) monRedirect(rec *CheckRec) {
 			w.violate("C13", "stored-requested-url-differs", fmt.Sprintf("check #%d stored %q want %q", rec.N, st.RequestedURL, want))
 		}
 	}
+	if len(ar.Problems) == 0 {
+		if w.seenIdent == nil {
+			w.seenIdent = map[string]string{}
+		}
+		for kind, v := range map[string]string{"state": ar.Param("state"), "nonce": ar.Param("nonce"), "code_challenge": ar.Param("code_challenge")} {
+			if prev, ok := w.seenIdent[kind+"/"+v]; ok {
+				w.violate("C06", "identifier-repeated:"+kind, fmt.Sprintf("check #%d: the %s of this login redirect equals the one issued by %s: it is computable from values disclosed earlier", rec.N, kind, prev))
+			}
+			w.seenIdent[kind+"/"+v] = fmt.Sprintf("check #%d", rec.N)
+		}
+	}
 	if newSID != "" {
 		// "until a new interactive login completes": a re-issued id starts a new login (the re-issue
 		// itself is C05's violation), so the old logout no longer condemns it.
@@ -299,6 +313,8 @@ func (w *World) monTokenReqs(rec *CheckRec) {
 			}
 			if sm.Done && rec.Seq0 > sm.DoneSeq {
 				w.violate("C04", "second-exchange-for-consumed-state", fmt.Sprintf("check #%d: session %s already completed its login", rec.N, w.canon(rec.SID)))
+			} else if sm.Exchanged && rec.Seq0 > sm.ExchangedSeq && !sm.ClearFailed {
+				w.violate("C04", "second-exchange-after-successful-exchange", fmt.Sprintf("check #%d: a code exchange for session %s had already succeeded at the provider (the callback then failed later on); the login state must have been consumed", rec.N, w.canon(rec.SID)))
 			}
 		}
 		if tr.Form.Get("redirect_uri") != f.Spec.CallbackURI() {
@@ -311,6 +327,15 @@ func (w *World) monTokenReqs(rec *CheckRec) {
 		// cannot know codes); the provider rejects it. Only the session-side clauses are judged here.
 		if tr.Status == 200 && tr.Done && tr.Fault == "" && sm != nil {
 			w.pendingDone = append(w.pendingDone, doneMark{sm, rec, tr})
+			if !sm.Exchanged {
+				sm.Exchanged, sm.ExchangedSeq = true, rec.Seq1
+				// if the store could not clear the state (injected failure on that very call) nothing can consume it
+				for _, fl := range rec.Faults {
+					if strings.HasPrefix(fl, "store.ClearAuthorizationState") || strings.HasPrefix(fl, "store.GetAuthorizationState") {
+						sm.ClearFailed = true
+					}
+				}
+			}
 		}
 	}
 	// a login is "completed" once the callback check returned the redirect to the requested URL
@@ -643,6 +668,15 @@ func (w *World) monLogout(rec *CheckRec) {
 	removeFailed := false
 	for _, s := range rec.Spy {
 		if s.Method == "RemoveSession" && s.Err != nil {
+			removeFailed = true
+		}
+	}
+	for _, fl := range rec.Faults {
+		if fl == "store.RemoveSession:redis-down" && rec.After != nil && rec.After.Found {
+			// the server rejected the DEL: the session is still there, whatever the store reported
+			if rec.Class == "logout" {
+				w.violate("C09", "logout-success-despite-removal-failure", fmt.Sprintf("check #%d: Redis was down during the session removal (the session is still stored) but the answer is the logout redirect", rec.N))
+			}
 			removeFailed = true
 		}
 	}
